@@ -149,6 +149,35 @@ def run(ctx, model_ok, deep=False):
                     if rc2 != 0:
                         V("falsifier:cli-roundtrip", "token from jwt-generate -a %s (%s; its header says alg=%s) is rejected by jwt-verify -a %s with the same key (status %d)" % (alg, kname, halg, alg, rc2),
                           ["# jwt-generate -a %s | jwt-verify -a %s (key %s without alg member)" % (alg, alg, kname)], detail=err2.decode("latin-1")[-400:])
+        # ---------------- key files that are JWK Sets: both tools take the same key from the same file ----
+        for kname, key in list(pool.keys.items()):
+            if key.kind == "oct":
+                other = K.Key("oct", k=os.urandom(len(key.k)), bits=key.bits)
+            else:
+                param = {"rsa": key.bits, "rsapss": key.bits}.get(key.kind) or {"Ed25519": "ED25519", "Ed448": "ED448"}.get(key.crv, key.crv)
+                other = K.gen_key(key.kind, param, ctx.scratch)
+            alg = key.admissible_algs()[0]
+            layouts = [("first-plain,second-pinned", [key.jwk(private=True), other.jwk(private=True, alg=alg)]),
+                       ("first-pinned,second-plain", [key.jwk(private=True, alg=alg), other.jwk(private=True)]),
+                       ("both-pinned-differently", [key.jwk(private=True, alg=alg), other.jwk(private=True, alg=key.admissible_algs()[-1])])]
+            for lname, ks in layouts:
+                sfile = os.path.join(d, "%s_%s_set.json" % (kname, lname.replace(",", "_")))
+                json.dump({"keys": ks}, open(sfile, "w"))
+                for use_a in (True, False):
+                    if not use_a and "alg" not in ks[0]:
+                        continue
+                    ga = ["-q", "-n", "-k", sfile, "-c", "s:sub=set"] + (["-a", alg] if use_a else [])
+                    rc, out, err = tool(ctx, "jwt-generate", ga)
+                    tok = out.decode().strip().split("\n")[-1] if out else ""
+                    ev += 1
+                    distinct.add(("set", kname, lname, use_a, rc))
+                    if rc != 0 or tok.count(".") != 2:
+                        continue        # a key file the generator does not take is not a round-trip failure
+                    rc2, _, err2 = tool(ctx, "jwt-verify", ["-q", "-k", sfile] + (["-a", alg] if use_a else []) + [tok])
+                    if rc2 != 0:
+                        V("falsifier:cli-roundtrip", "jwt-generate%s -k <JWK Set: %s> (%s) printed a token that jwt-verify rejects with the same file and options (status %d)" % (
+                            " -a " + alg if use_a else "", lname, kname, rc2), ["# key file: a JWK Set of two %s keys, %s" % (key.kind, lname)],
+                          detail=err2.decode("latin-1")[-400:])
         # ---------------- generate -> verify round trips per key type --------------------------------
         for kname, key in pool.keys.items():
             alg = key.admissible_algs()[0]
